@@ -304,6 +304,9 @@ class Types:
         if isinstance(e, ast.Starred):
             return self.type_of(e.value, fi, m)
         if isinstance(e, ast.Name):
+            lam = self._lambda_param(e, fi)
+            if lam is not None:
+                return lam
             return self._name_type(e.id, fi, m)
         if isinstance(e, ast.Attribute):
             out = set()
@@ -337,6 +340,24 @@ class Types:
         return EMPTY
 
     # ------------------------------------------------------------------ names
+    def _lambda_param(self, e: ast.Name, fi) -> Optional[FrozenSet]:
+        stop = fi.node if fi is not None else None
+        for a in self.p.ancestors(e, stop=stop):
+            if isinstance(a, ast.Lambda):
+                names = [x.arg for x in a.args.posonlyargs + a.args.args + a.args.kwonlyargs]
+                if e.id in names:
+                    # `key=lambda x: ...` of sort/sorted/min/max: x is an element of the sorted collection
+                    par = self.p.parent_of(a)
+                    if isinstance(par, ast.keyword) and par.arg == "key":
+                        call = self.p.parent_of(par)
+                        if isinstance(call, ast.Call):
+                            if isinstance(call.func, ast.Attribute) and call.func.attr == "sort":
+                                return self._elem(self.type_of(call.func.value, fi))
+                            if call.args:
+                                return self._elem(self.type_of(call.args[0], fi))
+                    return EMPTY
+        return None
+
     def _name_type(self, name, fi: Optional[FuncInfo], m: ModuleInfo) -> FrozenSet:
         f = fi
         while f is not None:
